@@ -37,9 +37,10 @@ void _ZN13QXmppLoggable10logMessageEN11QXmppLogger11MessageTypeERK7QString(char 
 /* ---- client / configuration ---- */
 /* the client's configuration is a REAL QXmppConfiguration object (src/client/QXmppConfiguration.cpp is linked) built by the harness
    with the real setters; user()/domain()/resource()/jid()/jidBare() are the real getters */
-static char *c11_client; static char *c11_cfg;
+static char *c11_client; static char *c11_cfg; static char *c11_client2; static char *c11_cfg2;   /* second client: seq_* (manager moved to another client) */
 void vp_c11_setup(char *client, char *cfg) { c11_client = client; c11_cfg = cfg; }
-char* _ZN11QXmppClient13configurationEv(char *self) { ASSERT(self == c11_client, "C11 env: configuration() of an unknown client"); return c11_cfg; }
+void vp_c11_setup2(char *client, char *cfg) { c11_client2 = client; c11_cfg2 = cfg; }
+char* _ZN11QXmppClient13configurationEv(char *self) { if (c11_client2 != 0 && self == c11_client2) return c11_cfg2; ASSERT(self == c11_client, "C11 env: configuration() of an unknown client"); return c11_cfg; }
 /* own bare JID as the oracle composes it: user empty ? domain : user '@' domain (fresh block, written unit by unit) */
 #define C11_BARECAP 6
 void vp_c11_compose_bare(char *out, char *user, char *domain) { QAD *u = *(QAD**)user, *d = *(QAD**)domain; uint32_t ul = u->f1, dl = d->f1; ASSUME(ul <= 2 && dl <= 3);
